@@ -277,6 +277,34 @@ def check_block_layers(ctx, prog, tag):
                        "BlockState::Replace is not built by prepare_blocks from the same instructions_and_blocks() "
                        "result as the instructions that are entered", f.where(c.bb))
     ctx.floor("C06.I6 with_execution_state call sites" + tag, n6, 3)
+    # the set of templates loaded by `extends` belongs to the same family as the block table: where the table is
+    # replaced (an included template) the set starts empty, or a template included from a block cannot extend the
+    # layout its includer extends ("cycle in template inheritance" for a chain that has none)
+    wf = prog.fns.get(WES)
+    if wf is not None:
+        sw_ = arms.enum_switches(prog, wf, BSTATE)
+        regs_ = arms.arm_regions(prog, wf, sw_[0][0], BSTATE) if sw_ else {}
+        if "Replace" in regs_:
+            reg = regs_["Replace"]
+            emptied = False
+            for c in arms.calls_in(wf, reg):
+                if c.name in ("core::mem::take", "core::mem::replace") and any(
+                        "loaded_templates" in o.proj for o in flow.origins(wf, c.args[0])):
+                    if c.name.endswith("take"):
+                        emptied = True
+                    else:
+                        emptied = any(o.kind == "call" and o.call.name.endswith("::new") or o.kind == "call" and "default" in o.call.name
+                                      for o in flow.origins(wf, c.args[1]))
+            ctx.ob("C06.I6.loaded-set-follows-the-template-family", tag + "with_execution_state|Replace", emptied,
+                   "entering another template with its own block table keeps the caller's set of loaded templates active: "
+                   "an included template that extends a layout the includer's chain already loaded is rejected as a cycle",
+                   wf.loc)
+            restored = any(
+                "loaded_templates" in flow._proj_names(d.place) for d in flow.stores(wf)) or any(
+                isinstance(s_.get("place", {}).get("p"), list) and any(isinstance(e, dict) and e.get("n") == "loaded_templates" for e in s_["place"]["p"])
+                for _, _, s_ in wf.all_stmts() if s_.get("k") == "assign")
+            ctx.ob("C06.I6.loaded-set-is-restored", tag + "with_execution_state", restored,
+                   "the caller's set of loaded templates is not written back after the nested evaluation", wf.loc)
     # -- I8: "is the output discarding?" is asked about the capture that receives the writes.  Blocks are skipped
     # (CallBlock) while the output discards; a real capture opened inside a discarding region ({% set %} / import in
     # a child template) must render its blocks.  `is_discarding` and the function that selects the write target
@@ -535,20 +563,43 @@ def run(ctx):
             ds = errflow.disposition(lb, c)
             ctx.ob("C06.I2.missing-parent-is-an-error", tag + "load_blocks|get_template",
                    bool(ds) and all(d[0] in GOOD for d in ds), "%s" % ds, lb.where(c.bb))
-            g_ok = False
-            e_ok = False
-            for (sb, taken) in flow.guards(lb, c.bb):
-                cd = flow.cond_of(lb, sb)
-                if cd.kind == "call" and cd.call.name.endswith("BTreeSet::contains") and any(
-                        "loaded_templates" in o.proj for o in flow.origins(lb, cd.call.args[0])):
-                    side = flow.bool_true_labels(taken)
-                    if side is not None and side != (not cd.neg):
-                        g_ok = True
-                        e_ok = all(err_returned_from(lb, x) for (_, x) in flow.true_side(lb, sb, cd))
-            ctx.ob("C06.I2.cycle-check-guards-load", tag + "load_blocks|get_template", g_ok,
-                   "get_template is not guarded by `loaded_templates.contains(name)`: an inheritance cycle loops "
-                   "forever", lb.where(c.bb))
-            ctx.ob("C06.I2.cycle-returns-error", tag + "load_blocks|get_template", e_ok, "", lb.where(c.bb))
+        # the cycle test: `loaded_templates.contains(x)` (present -> Err) or `loaded_templates.insert(x)` (false -> Err).
+        # It must (a) send the "already loaded" side to an Err return, (b) dominate everything that registers the
+        # parent's blocks, and (c) test the very name that is recorded - the two differ when a path-join callback
+        # rewrites the referenced name, and a test on the raw name never trips (the render then never returns)
+        tests = []
+        for sb in sorted(lb.reachable):
+            if lb.term(sb)["k"] != "switch":
+                continue
+            cd = flow.cond_of(lb, sb)
+            if cd.kind != "call" or not any("loaded_templates" in o.proj for a_ in cd.call.args[:1] for o in flow.origins(lb, a_)):
+                continue
+            nm_ = cd.call.name
+            if nm_.endswith("BTreeSet::contains") or nm_.endswith("BTreeSet::insert"):
+                present_when = True if nm_.endswith("contains") else False      # value of the call meaning "already loaded"
+                edges = cfg.bool_edges(lb, sb, present_when != cd.neg)
+                tests.append((sb, cd.call, edges))
+        ctx.ob("C06.I2.cycle-check-guards-load", tag + "load_blocks|cycle-test", bool(tests),
+               "load_blocks has no test of `loaded_templates` (contains / insert): an inheritance cycle loops forever", lb.loc)
+        regs_ = [k for k in lb.calls() if k.name.endswith("BlockStack::append_instructions") or k.name.endswith("BlockStack::new")]
+        for sb, call_, edges in tests:
+            e_ok = bool(edges) and all(err_returned_from(lb, x) for (_, x) in edges)
+            ctx.ob("C06.I2.cycle-returns-error", tag + "load_blocks|" + call_.name.split("::")[-1], e_ok,
+                   "the 'already loaded' side of the cycle test does not return an error", lb.where(sb))
+            ctx.ob("C06.I2.cycle-check-guards-load", tag + "load_blocks|blocks-registered-after-the-test",
+                   bool(regs_) and all(cfg.dominates(lb, sb, k.bb) for k in regs_),
+                   "parent blocks are appended to the block table on a path that did not pass the cycle test", lb.where(sb))
+            # (c) the tested name is the recorded name
+            ins_ = [k for k in lb.calls() if k.name.endswith("BTreeSet::insert") and any(
+                "loaded_templates" in o.proj for o in flow.origins(lb, k.args[0]))]
+            tk = {o.key() for o in flow.origins(lb, call_.args[1])} if len(call_.args) > 1 else set()
+            same = bool(ins_) and all(({o.key() for o in flow.origins(lb, k.args[1])} & tk) for k in ins_ if len(k.args) > 1)
+            ctx.ob("C06.I2.cycle-test-looks-at-the-recorded-name", tag + "load_blocks|" + call_.name.split("::")[-1], same,
+                   "the cycle test looks `%s` up, but the set records another value (%s): when the name a template is "
+                   "referenced by differs from the name it is loaded under (path join callback) the test never trips and "
+                   "the inheritance cycle is followed forever" % (
+                       [repr(o) for o in flow.origins(lb, call_.args[1])] if len(call_.args) > 1 else "?",
+                       [repr(o) for k in ins_ for o in flow.origins(lb, k.args[1])]), lb.where(sb))
         for c in lb.calls_to(IAB):
             ds = errflow.disposition(lb, c)
             ctx.ob("C06.I2.parent-compile-error-propagated", tag + "load_blocks|instructions_and_blocks",
